@@ -107,10 +107,11 @@ def toEntry (env : Env) : (fuel : Nat) → (root : Mod) → (scope : List Stmt) 
         (match n.argOf? "key" with
           | some v => e.withD fun d => { d with key := v }
           | none => e, st)
-      | "action" | "anydata" | "anyxml" | "case" | "choice" | "container" | "leaf" | "leaf-list" | "list"
+      | "anydata" | "anyxml" | "case" | "choice" | "container" | "leaf" | "leaf-list" | "list"
       | "notification" => addAll f acc
-      | "rpc" =>
-        (n.all "rpc").foldl (fun (acc : Entry × TState) c =>
+      | "rpc" | "action" =>
+        -- an rpc / action entry always has its `RPC` set, also without written input or output
+        (n.all f).foldl (fun (acc : Entry × TState) c =>
           let (ce, st) := toEntry env fuel root sub c visiting acc.2
           (acc.1.add c.arg (ce.withD fun d => { d with isRpc := true }), st)) acc
       | "grouping" =>
